@@ -425,7 +425,8 @@ Proof.
       apply eff_eq; auto.
       * exact (logical_bounce_data mx s b i r rest I1 I2 Hb Ei Rx).
       * simpl. apply rq_pos_app; auto. intros i' r'. apply bounce1_rq_pos.
-    + assert (Acc : forall y (keep : bool), inq y = rest -> rf y = rf x -> cl y = cl x ->
+    + simpl is_fin. cbv iota.
+      assert (Acc : forall y (keep : bool), inq y = rest -> rf y = rf x -> cl y = cl x ->
                 pre y = pre x ++ (if keep then [Data i r] else []) ->
                 sub (acc y) (acc x) /\ doom y = doom x /\ (keep = true -> acc y = acc x)).
       { intros y keep E1 E2 E3 E4. assert (Ry : refusing y = false) by (unfold refusing in *; now rewrite E2, E3).
